@@ -143,10 +143,9 @@ func (fd *folder) fold(f *ssa.Function, args []cval) foldResult {
 	var stores map[int]cval
 	var prev *ssa.BasicBlock
 	b := f.Blocks[0]
-	for steps := 0; steps < 2000; steps++ {
-		if visited[b] {
-			return foldResult{undecided: "loop"}
-		}
+	for steps := 0; steps < 20000; steps++ {
+		// a block may be re-entered: every value is a known constant, so a loop is unrolled concretely; a loop
+		// that does not finish within the step budget is undecided
 		visited[b] = true
 		var next *ssa.BasicBlock
 		for _, in := range b.Instrs {
